@@ -1,3 +1,5 @@
+import GoRedisModel.Generated.Facts
+import GoRedisModel.Proofs.ReverseBy
 import GoRedisModel.Proofs.Translated
 import GoRedisModel.Proofs.Spec
 import GoRedisModel.Proofs.Dispatch
@@ -540,5 +542,34 @@ example : Translated.incdecNewValue 9223372036854775807 1 = .err "increment or d
 translated from the current source -/
 theorem C12_source_zrevrange_window (start stop : Int) :
     Translated.zrevrangeWindow start stop = (-stop - 1, -start - 1) := Translated.zrevrangeWindow_eq start stop
+
+/-! ## ZREVRANGE / ZREVRANGEBYSCORE: the reply loops as they are written
+
+`Model/ReverseBy` transcribes `(*Array).ReverseBy` (two index loops and a final append) and the LIMIT loop of the
+ZREVRANGEBYSCORE executor (entry = n / step, `continue` before the offset, `break` behind the count) loop for loop;
+`Model/Exec` describes the same replies by `List.reverse`, `reversePairs` and `limitEntries`, and the theorems
+`C12_zrevrange_slice`, `C12_zrevrangebyscore_reply` above are stated over those.  The loops compute exactly them. -/
+
+/-- ZREVRANGE without scores: `ReverseBy(1)` is the reversal – for every reply, without running out of fuel or range -/
+theorem C12_ex_reverseBy_one (es : List Msg) : Ex.reverseBy es 1 = some es.reverse := by
+  rw [Ex.reverseBy_eq]; simp [Ex.revTail_one]
+
+/-- WITHSCORES: `ReverseBy(2)` reverses the order of the member/score pairs and keeps each pair as it is; a reply of odd
+length keeps its leading element behind the pairs (the case that used to index out of range) -/
+theorem C12_ex_reverseBy_two (es : List Msg) : Ex.reverseBy es 2 = some (reversePairs es) := by
+  rw [Ex.reverseBy_eq]; simp [Ex.revTail_two]
+
+/-- ZREVRANGEBYSCORE … LIMIT offset count: the loop over the reversed reply selects `limitEntries` – skip `offset` entries,
+keep `count` (all when negative), nothing for a negative offset – for all 64-bit offsets and counts, with and without scores -/
+theorem C12_ex_limit_loop (step : Nat) (hs : step = 1 ∨ step = 2) (offset count : Int) (es : List Msg) :
+    Ex.limitReversed step offset count es = limitEntries step offset count es := Ex.limitReversed_eq step hs offset count es
+
+/-- the source of these loops is the one that was transcribed (regenerated on every run) -/
+theorem C12_source_reply_loops_are_the_modelled_ones :
+    Ex.reverseByModelled.all (fun e => Generated.protoFingerprints.contains (e.1, e.2.1)) = true := by decide
+
+example : Ex.reverseBy [10, 1, 20, 2, 30] 2 = some [2, 30, 1, 20, 10] ∧ Ex.reverseBy [1, 2, 3] 0 = some [3, 2, 1] ∧
+    Ex.limitReversed 2 1 9223372036854775807 [10, 1, 20, 2] = [20, 2] ∧ Ex.limitReversed 1 (-1) 5 [1, 2] = [] := by
+  decide +kernel
 
 end GoRedis
